@@ -47,7 +47,7 @@ const CHAIN: [&str; 14] = ["E", "E", "A", "D4", "D5", "D6", "D7", "D8", "D9", "D
 struct Chain {
     headers: BTreeMap<u64, ExtendedHeader>,
     /// label -> hash value; includes "X" (a hash no header has) and "E"
-    value: BTreeMap<String, Hash>,
+    value: BTreeMap<&'static str, Hash>,
 }
 
 fn chain(seed: u64) -> &'static Chain {
@@ -55,7 +55,7 @@ fn chain(seed: u64) -> &'static Chain {
     C.get_or_init(|| {
         let mut generator = ExtendedHeaderGenerator::new();
         let mut headers = BTreeMap::new();
-        let mut value: BTreeMap<String, Hash> = BTreeMap::new();
+        let mut value: BTreeMap<&'static str, Hash> = BTreeMap::new();
         for (i, label) in CHAIN.iter().enumerate() {
             let h = i as u64 + 1;
             let header = if *label == "E" {
@@ -78,13 +78,13 @@ fn chain(seed: u64) -> &'static Chain {
             } else if value.values().any(|v| *v == dh) {
                 machinery_error("C40", "different labels, same data hash");
             }
-            value.insert(label.to_string(), dh);
+            value.insert(*label, dh);
             headers.insert(h, header);
         }
         if value["E"] != empty_eds_data_hash() {
             machinery_error("C40", "empty header's data hash is not lumina's empty-square hash");
         }
-        value.insert("X".into(), Hash::Sha256([0x5a; 32]));
+        value.insert("X", Hash::Sha256([0x5a; 32]));
         Chain { headers, value }
     })
 }
@@ -93,20 +93,62 @@ fn label_of(h: u64) -> &'static str {
     CHAIN[(h - 1) as usize]
 }
 
-#[derive(Clone, Debug, Serialize, Deserialize, PartialEq, Eq)]
-#[serde(tag = "op", rename_all = "snake_case")]
+/// Labels of the hash values peers can announce.
+const LABELS: [&str; 6] = ["E", "A", "B", "C", "X", "D4"];
+
+fn label_index(l: &str) -> u8 {
+    LABELS.iter().position(|x| *x == l).unwrap_or_else(|| machinery_error("C40", &format!("unknown hash label {l}"))) as u8
+}
+
+/// Compact operation (histories are kept per state); its JSON form is `OpJson`.
+#[derive(Clone, Copy, Debug, PartialEq, Eq, Serialize, Deserialize)]
+#[serde(into = "OpJson", from = "OpJson")]
 enum Op {
     /// insert header h into the empty store and poll until pending (what the unit tests'
     /// `setup_tracker` does); only from the initial state
-    Boot { h: u64 },
+    Boot { h: u8 },
     /// header h arrives in the store
-    Hdr { h: u64 },
-    /// `add_peer_for_hash(peer p, hash with this label, h)`
-    Add { p: u8, hash: String, h: u64 },
+    Hdr { h: u8 },
+    /// `add_peer_for_hash(peer p, hash LABELS[hash], h)`
+    Add { p: u8, hash: u8, h: u8 },
     /// `poll` until `Pending`
     Poll,
     /// clock + 120 s
     Timeout,
+}
+
+#[derive(Clone, Debug, Serialize, Deserialize)]
+#[serde(tag = "op", rename_all = "snake_case")]
+enum OpJson {
+    Boot { h: u64 },
+    Hdr { h: u64 },
+    Add { p: u8, hash: String, h: u64 },
+    Poll,
+    Timeout,
+}
+
+impl From<Op> for OpJson {
+    fn from(o: Op) -> OpJson {
+        match o {
+            Op::Boot { h } => OpJson::Boot { h: h as u64 },
+            Op::Hdr { h } => OpJson::Hdr { h: h as u64 },
+            Op::Add { p, hash, h } => OpJson::Add { p, hash: LABELS[hash as usize].to_string(), h: h as u64 },
+            Op::Poll => OpJson::Poll,
+            Op::Timeout => OpJson::Timeout,
+        }
+    }
+}
+
+impl From<OpJson> for Op {
+    fn from(o: OpJson) -> Op {
+        match o {
+            OpJson::Boot { h } => Op::Boot { h: h as u8 },
+            OpJson::Hdr { h } => Op::Hdr { h: h as u8 },
+            OpJson::Add { p, hash, h } => Op::Add { p, hash: label_index(&hash), h: h as u8 },
+            OpJson::Poll => Op::Poll,
+            OpJson::Timeout => Op::Timeout,
+        }
+    }
 }
 
 #[derive(Clone, Debug, PartialEq, Eq, PartialOrd, Ord, Serialize)]
@@ -121,6 +163,8 @@ struct Cfg {
     event_heights: Vec<u64>,
     peers: u8,
     seed: u64,
+    /// whether peers also announce the empty-square hash for non-empty heights
+    empty_hash_announced: bool,
 }
 
 #[derive(Clone)]
@@ -131,9 +175,9 @@ struct State {
     dead: bool,
 }
 
-fn hash_labels_for(cfg: &Cfg, h: u64) -> Vec<String> {
+fn hash_labels_for(cfg: &Cfg, h: u64) -> Vec<u8> {
     let right = label_of(h);
-    let mut v = vec![right.to_string(), "X".to_string()];
+    let mut v = vec![label_index(right), label_index("X")];
     // the data hash of another height (first later event height, cyclically, whose hash is
     // neither this height's nor the empty one)
     let n = cfg.event_heights.len();
@@ -141,12 +185,12 @@ fn hash_labels_for(cfg: &Cfg, h: u64) -> Vec<String> {
     for k in 1..n {
         let o = label_of(cfg.event_heights[(pos + k) % n]);
         if o != right && o != "E" {
-            v.push(o.to_string());
+            v.push(label_index(o));
             break;
         }
     }
-    if right != "E" {
-        v.push("E".to_string());
+    if right != "E" && cfg.empty_hash_announced {
+        v.push(label_index("E"));
     }
     v
 }
@@ -159,7 +203,7 @@ fn ops(cfg: &Cfg, s: &State) -> Vec<Op> {
     if s.hist.is_empty() {
         for &h in &cfg.event_heights {
             if h <= 2 {
-                v.push(Op::Boot { h });
+                v.push(Op::Boot { h: h as u8 });
             }
         }
     }
@@ -170,13 +214,13 @@ fn ops(cfg: &Cfg, s: &State) -> Vec<Op> {
         }
         let insertable = s.stored.is_empty() || top.is_some_and(|t| h > t) || s.stored.contains(&(h - 1)) || s.stored.contains(&(h + 1));
         if insertable {
-            v.push(Op::Hdr { h });
+            v.push(Op::Hdr { h: h as u8 });
         }
     }
     for &h in &cfg.event_heights {
         for p in 0..=s.peers_used.min(cfg.peers - 1) {
             for hash in hash_labels_for(cfg, h) {
-                v.push(Op::Add { p, hash, h });
+                v.push(Op::Add { p, hash, h: h as u8 });
             }
         }
     }
@@ -193,9 +237,9 @@ struct Model {
     status: Vec<St>,
     /// height -> announcements (peer, hash label) the tracker took into a pool, since the
     /// pool appeared, minus those of peers blocked since
-    votes: BTreeMap<u64, Vec<(u8, String)>>,
+    votes: BTreeMap<u64, Vec<(u8, &'static str)>>,
     /// peer -> hash labels announced since the peer was last seen in a BlockPeers event
-    live: BTreeMap<u8, BTreeSet<String>>,
+    live: BTreeMap<u8, BTreeSet<&'static str>>,
     /// peer -> why a BlockPeers event is owed by the end of the next poll
     owed: BTreeMap<u8, &'static str>,
     newest_validated: u64,
@@ -269,6 +313,7 @@ fn run(cfg: &Cfg, hist: &[Op]) -> Outcome {
                 let mut polled = false;
                 class = match op {
                     Op::Boot { h } | Op::Hdr { h } => {
+                        let h = &(*h as u64);
                         let header = ch.headers[h].clone();
                         if let Err(e) = store.insert(header).await {
                             machinery_error("C40", &format!("store refused header {h}: {e} (history {hist:?})"));
@@ -282,8 +327,8 @@ fn run(cfg: &Cfg, hist: &[Op]) -> Outcome {
                         }
                     }
                     Op::Add { p, hash, h } => {
-                        let value = ch.value[hash];
-                        let r = std::panic::catch_unwind(std::panic::AssertUnwindSafe(|| pool.add_peer_for_hash(ids[*p as usize], value, *h)));
+                        let value = ch.value[LABELS[*hash as usize]];
+                        let r = std::panic::catch_unwind(std::panic::AssertUnwindSafe(|| pool.add_peer_for_hash(ids[*p as usize], value, *h as u64)));
                         if r.is_err() {
                             v.push(viol_pair("add-peer-panicked", format!("add_peer_for_hash panicked: {}", take_last_panic().unwrap_or_default())));
                             dead = true;
@@ -350,7 +395,8 @@ fn run(cfg: &Cfg, hist: &[Op]) -> Outcome {
                 if !dead {
                     // ---- bookkeeping + obligations
                     if let Op::Add { p, hash, h } = op {
-                        m.live.entry(*p).or_default().insert(hash.clone());
+                        let (hash, h) = (LABELS[*hash as usize], &(*h as u64));
+                        m.live.entry(*p).or_default().insert(hash);
                         let hi = *h as usize;
                         let accepted = matches!(post[hi], St::Cand | St::Ok(_));
                         if accepted {
@@ -369,7 +415,7 @@ fn run(cfg: &Cfg, hist: &[Op]) -> Outcome {
                             } else if !twice {
                                 class = if matches!(pre[hi], St::Cand) { "add:vote".into() } else { "add:new-pool".into() };
                             }
-                            votes.push((*p, hash.clone()));
+                            votes.push((*p, hash));
                             if matches!(pre[hi], St::NotTracked | St::TooOld) && matches!(post[hi], St::Cand) {
                                 m.tasks.push((*h, false, false));
                             }
@@ -521,11 +567,16 @@ state = distinct (tracker private state via verif_snapshot, stored heights, orac
 
 fn main() {
     let ctx = Ctx::from_args("C40");
-    let cfg = Cfg {
-        event_heights: ctx.tier.pick(vec![1, 2, 11, 12], vec![1, 2, 3, 11, 12, 13]),
-        peers: 3,
+    let env_list = |k: &str| -> Option<Vec<u64>> { std::env::var(k).ok().map(|s| s.split(',').filter_map(|x| x.trim().parse().ok()).collect()) };
+    let mut cfg = Cfg {
+        event_heights: env_list("C40_HEIGHTS").unwrap_or(ctx.tier.pick(vec![1, 2, 11], vec![1, 2, 3, 11, 12, 13])),
+        peers: env_list("C40_PEERS").and_then(|v| v.first().copied()).unwrap_or(ctx.tier.pick(2, 3)) as u8,
         seed: ctx.seed,
+        empty_hash_announced: std::env::var("C40_EMPTY").map(|v| v == "1").unwrap_or(!ctx.quick()),
     };
+    if ctx.replay.is_some() {
+        cfg.peers = 3;
+    }
     let _ = chain(cfg.seed);
     let mut rep = Report::new();
     if let Some(c) = ctx.replay_case() {
@@ -571,7 +622,7 @@ fn main() {
                 let mut peers_used = s.peers_used;
                 match o {
                     Op::Boot { h } | Op::Hdr { h } => {
-                        stored.insert(*h);
+                        stored.insert(*h as u64);
                     }
                     Op::Add { p, .. } => peers_used = peers_used.max(*p + 1),
                     _ => {}
